@@ -32,6 +32,7 @@ fn check_one(prop: &str, sc: &Scenario, ex: &mut Exec) -> (Verdict, Option<Strin
 /// map it creates are a function of the scenario's hash seed alone (getrandom shim).
 fn run_scenario(prop: &str, sc: Scenario, keep_scenario: bool) -> RunRecord {
     std::env::set_var("VERIF_HASH_SEED", sc.compile.hash_seed.to_string());
+    simcommon::new_hash_epoch();
     let prop_s = prop.to_string();
     let handle = std::thread::Builder::new()
         .stack_size(256 << 20)
@@ -84,6 +85,9 @@ fn main() {
             let offset: u64 = arg(&args, "--offset").unwrap_or("0").parse().unwrap();
             let samples: u64 = arg(&args, "--samples").unwrap_or("2").parse().unwrap();
             let deadline: Option<f64> = arg(&args, "--deadline-s").map(|s| s.parse().unwrap());
+            // self-test: execute every run `repeat` times in a row in this process
+            let repeat: u64 = arg(&args, "--repeat").unwrap_or("1").parse().unwrap();
+            let mut rep = 0u64;
             let out_path = arg(&args, "--out").expect("--out");
             let mut out = std::io::BufWriter::new(std::fs::File::create(out_path).unwrap());
             let start = std::time::Instant::now();
@@ -106,7 +110,11 @@ fn main() {
                 }
                 serde_json::to_writer(&mut out, &rec).unwrap();
                 out.write_all(b"\n").unwrap();
-                i += stride;
+                rep += 1;
+                if rep >= repeat {
+                    rep = 0;
+                    i += stride;
+                }
             }
             out.flush().unwrap();
         }
